@@ -242,6 +242,107 @@ CHECKS = {
         design='6/C08'),
 }
 
+# ---- claim texts after the independent review (docs/audit) and the repairs that followed: these REPLACE the texts above
+CHECKS['C01']['text'] = CHECKS['C01']['text'].replace(
+    "and the (0,0) normalisation |b0^2 * 4 pi - 1| <= 1e-6 on the generated constants;",
+    "and the (0,0) normalisation: |b0^2 * 4 pi - 1| <= 1e-15 on the generated float64 constants (20-digit pi bounds from Mathlib), and the 8-digit literal _CONSTANT_NORMALIZATION_FACTOR of primitive_equations within 2e-9 of sqrt(4 pi) (its value is compared with the literal in the Lean statement on every run);")
+CHECKS['C02']['text'] = (
+    "Machine-checked proof for both layouts, all sizes M, L, paddings and radii r != 0: the index map of both longitude-derivative functions is the coefficient map of the termwise analytic derivative of the Fourier series (HasDerivAt); "
+    "d_dlon o d_dlon = -m^2, d_dlon kills m = 0; laplacian and inverse_laplacian are inverse on 1 <= l < L, inverse_laplacian is zero at l = 0 and on padding, eigenvalues scale as r^-2; for arbitrary weights D1 - D2 = 2 Mu, and with the code's recurrence weights "
+    "a^2 = (l^2-m^2)/(4l^2-1) the coefficient-space Legendre equation D1 D1 + d_dlon d_dlon = (1 - Mu Mu) r^2 laplacian holds for every (m, l) in the interior of the truncation (model weights with any sqrt that squares back; Real.sqrt instance); "
+    "k x k x = -id, div(k x v) = -curl v, curl(k x v) = div v, linearity of every operator (the model's own synthesis / analysis of both layouts are proved linear for every basis of consistent shape), clip idempotent and commuting with l-diagonal operators. "
+    "T2.6 is an exact-arithmetic REDUCTION: the wind round trip equals entrywise curl S grad chi + div S grad psi / div S grad chi - curl S grad psi; on Dom (MASKED zero-mean fields whose top 1 (clip=False) / 2 (clip=True) wavenumbers are empty, no node at a pole: cos(lat) != 0 is a named side condition) it is the identity given Hyp-A (div S grad = laplacian) and Hyp-B (curl S grad = 0) on that same domain, "
+    "and within 2 eps max(|vor|,|div|) of the identity when their residuals are <= eps max|laplacian psi| (eps-form, any ordered field); the identities curl grad = 0, div grad = Laplacian, div of a rotated gradient = 0 ARE Hyp-B, Hyp-A, Hyp-B + div(k x v) = -curl v. "
+    "Hyp-A/B are proved exactly only on a rational M = 3 transform pair (where they provably fail off the mask) and are validated numerically (1e-9) on the real grids on every run on fields drawn from exactly Dom (membership checked by the model), with an off-mask negative control. "
+    "PARTIAL (named): the latitude-derivative recurrence is proved consistent with the Laplacian and with multiplication by sin(lat), not derived from a formal definition of P_l^m (absent from Mathlib); Hyp-A/Hyp-B on the real grids are numerical.")
+CHECKS['C02']['note'] = CHECKS['C02']['note'] + ' Side condition cos(lat) != 0: equiangular_with_poles is excluded from the wind conversions (recorded as a control each run).'
+CHECKS['C03']['text'] = CHECKS['C03']['text'].replace(
+    "the block-wise strategy is the exact resolvent when its two inverted blocks are left inverses of I - GH and I - HG;",
+    "the block-wise strategy is proved to be the exact resolvent of x - eta*implicit_terms(x) for every layer count, level set without a zero thickness, reference profile and eta, with dense or cumulative-sum products, whenever the two matrices returned by numpy.linalg.inv are left inverses of the two matrices the code forms (I - M[div,tp] M[tp,div] and I - M[tp,div] M[div,tp]: modelled, compared with the matrices actually handed to numpy.linalg.inv on every run, and the contract checked on them);"
+).replace(
+    "the pre-repair '\n             'form is proved correct for every equidistant level set and fails on an uneven witness;", "XX")
+CHECKS['C03']['text'] = CHECKS['C03']['text'].replace(
+    "the pre-repair form is proved correct for every equidistant level set and fails on an uneven witness;",
+    "the pre-repair form is characterised exactly (correct iff in each row the off-diagonal coefficient vanishes or the thicknesses on that side equal the first / last one; hence correct for equidistant sets and for <= 2 layers, and with >= 3 layers and non-zero corner coefficients agreement forces equal thicknesses; fails on an explicit uneven 3-layer witness);")
+CHECKS['C05']['text'] = CHECKS['C05']['text'].replace(
+    "which equals the discrete gradient-wind balance residual (its vanishing for solid-body rotation with the analytically balanced surface pressure is a test on the real code, not a theorem). '",
+    "which equals the discrete gradient-wind balance residual, so such a flow is steady iff that residual vanishes (its vanishing for solid-body rotation with the analytically balanced surface pressure is a test on the real code and a computation on a toy sphere with longitude, not a theorem). '")
+CHECKS['C05']['technique'] = CHECKS['C05']['technique'].replace(
+    "(labelled test)", "(labelled test; for the cloud class the oracle mirrors the class's condensate loading on T - T_ref only, i.e. it contains the C04 finding)")
+CHECKS['C06']['text'] = (
+    "Machine-checked proof for any field, any module of states, arbitrary F, G with a resolvent, any stage count and any dt: every scheme is proved EQUAL to imex_runge_kutta of an explicit Butcher pair (lsrk_eq_imexRK for the low-storage family with the Crank-Nicolson chain as its DIRK rows, any stage count; bfe_eq_imexRK; cnrk2_eq_imexRK), "
+    "and with F = 0 the generic IMEX-RK satisfies the DIRK stage equations Y_i - dt a_ii G Y_i = y0 + dt sum_{j<i} a_ij G Y_j, y1 = y0 + dt sum b_i G Y_i (any tableau); reductions to the explicit / implicit parent method; low-storage recursion = Butcher form. "
+    "Per scheme, on the coefficients regenerated from the source on every run: (i) bivariate Taylor match of the linear amplification function with exp(x+y): Euler pair degree 1 exact; CN-RK2, RK3-CN, SIL3 degree 2 exact with explicit remainder; RK4-CN degree 2 with coefficient defects <= 1e-12; centred leapfrog second-order consistent; for G = 0: RK3 degree 3 exact, RK4 degree 4 within 1e-12, SIL3 degree 3 for linear F; "
+    "(ii) rooted-tree conditions of the explicit part: RK3 order <= 3 exact, RK4 order <= 4 with residuals <= 1e-12 (the source coefficients are 13-digit decimals; measured 7e-14), SIL3 order 2 plus the linear order-3 condition; (iii) all six additive (IMEX) pair conditions of order <= 2: RK3-CN, SIL3, CN-RK2 exact, RK4-CN <= 1e-12, Euler pair the two of order 1. "
+    "A-stability over C for every dt >= 0, Re mu <= 0 (any low-storage scheme with non-decreasing alpha, SIL3 quartic inequality, leapfrog alpha >= 1/2 with a sharpness witness); length validation accepts exactly the consistent triples (negative witness for the old chained !=). "
+    "NOT formalised: Butcher's theorem for additive RK methods (order conditions (ii)+(iii) => order p for every smooth F); leapfrog (two-step): linear consistency only.")
+CHECKS['C07']['text'] = (
+    "Machine-checked proof: for every axis size n that is 1 or even, every device, any chunk sizes and any batch index, the two-way all-gather matmul and the reduce-scatter matmul leave on device a exactly rows-chunk a of the UNSHARDED product A B of the list model (general schedule induction + block decomposition of the contraction; additionally n = 1, 2, 4, 6, 8 by kernel evaluation of the symbolic schedule; odd n > 1 rejected as in the code), and the per-device pieces reassemble to A B; "
+    "sharded_einsum's hand-written subscript / strategy logic (_parse_einsum_subscripts, _determine_reduce_subscript, _determine_transfer_subscript, the subscripts of _reversed_arg_order_einsum, gather-vs-scatter choice, lhs_spec, split / scatter axis, axis name) is modelled and proved: the reduce / transfer letters are the unique contracted-and-sharded / transferred-and-sharded letters and the reversed argument order denotes the same contraction; "
+    "parallel prefix sum = cumulative sum of the concatenation in both directions for any shard count; zero-padded bases: the padded transform restricted to the unpadded block equals the unpadded transform and padding outputs are zero; stack/unstack of m is a bijection; per-shard longitude derivative with frequency offset = restriction of the global derivative (odd shard row counts rejected as by the code); "
+    "crop o f o pad = f for level-wise f; _round_to_multiple is the exact integer ceiling and equals the code's binary64 evaluation for x < 2^53; the repaired diffusion step filter is finite on padded layouts (negative witness for the pre-fix NaN). "
+    "DOMAIN: x / y mesh axes of odd size > 1 are rejected loudly (ValueError 'axis_size must be 1 or even'; z may have any size); on layouts with a padded total-wavenumber axis the raw cos_lat_d_dlat / sec_lat_d_dlat_cos2 write a value into the first padding column (characterised exactly in C09), asserted each run to be confined there and never to reach resolved coefficients. "
+    "PARTIAL (named): XLA SPMD partitioner, shard_map, the collectives, with_sharding_constraint, jnp.einsum / eval_shape and _transform_einsum's ellipsis / spec selection (recorded from the real code) are executed, not modelled; the sharded implicit operators, filters and whole steps have no theorem beyond the padded-filter lemmas and are decided by the sharded-vs-unsharded differential on meshes with z x y in {1,2,4,6,8} (x, y in {1, even}) plus vertical-only 3, 5, 7 (one whole filtered IMEX step per quick run).")
+CHECKS['C09']['text'] = CHECKS['C09']['text'].replace(
+    "'Sentinel: every public Grid method", 
+    "'for the bases and paddings the code builds the modal row padding is proved even (from _round_to_multiple(2M, 2 base x_shards)), so no parity hypothesis remains; cos_lat_d_dlat / sec_lat_d_dlat_cos2 agree with the reference layout on every resolved coefficient and are zero in row 1 and all padding EXCEPT padding column L, which (when the l axis is padded) holds -(L-1) resp. -(L+1) sqrt((L^2-m^2)/(4L^2-1)) x[m,L-1] because b[:, -1] = 0 zeroes the last PADDED column (value proved; it is the exact l = L coefficient); clip, the Laplacians, the synthesis and any further latitude derivative discard it; '\n             'cos_lat_grad / div_cos_lat / curl_cos_lat commute with iota exactly for clip=True and up to that characterised column for clip=False; k_cross commutes; integrate(pad z) = integrate(z). PARTIAL (named): get_cos_lat_vector, the wind conversions (nodal division by cos_lat), the equation classes, leading batch axes and the single-device mesh are not modelled: their equivalence under the switched implementation is a differential test on the real code. '\n             'Sentinel: every public Grid method")
+CHECKS['C10']['text'] = CHECKS['C10']['text'].replace(
+    "that commutes with every horizontal operation (sign eps on cos_lat_d_dlat, sec_lat_d_dlat_cos2, sin(lat); vorticity odd),",
+    "that commutes with every horizontal operation (sign eps on cos_lat_d_dlat, sec_lat_d_dlat_cos2, sin(lat); vorticity odd) and, for the moist / cloud statements, with nodal division (rho_N(a/b) = rho_N a / rho_N b: validated exactly for roll and flip each run),"
+).replace(
+    "(induction; that the code\\'s spectral filters are conjugated follows from their being l-multipliers and is additionally tested)",
+    "(induction; for tree filters applying one linear multiplier to every modal leaf conjugation is PROVED from 'the multiplier commutes with rho_M' (spectral_filter_conjugated), which holds for l-multipliers in the list model and is validated on the real exponential / diffusion filters each run)")
+CHECKS['C11']['text'] = (
+    "Machine-checked proof: for every state the explicit tendencies of every class lie in the structural submodule S (zero outside the mask and at the clipped top wavenumber); dry-class (zeta, delta) tendencies have zero (0,0) coefficient; implicit terms and the implicit inverse map S -> S for any supplied matrices and pass zeta, tracers and the clock through. "
+    "On the executable tree-vector model, from any record in S with n >= 1 levels that carries the tracer keys the class looks up (moist: specific_humidity; cloud: plus the two condensate keys) no exception is raised, and after ANY list of one-state steps (each with its own scheme, dt and filters) or k leapfrog steps with step filters and Robert-Asselin the state is again such a record and sim_time = t0 + sum dt adv rate, for all four classes. "
+    "FilterOk is proved for filtering._make_filter_fn lifted to the spectral carrier: any 1-D scaling for S and the clock; scalings equal to 1 at l = 0 (exponential filter with cutoff >= 0, horizontal diffusion of order >= 1) for the (0,0) coefficients and the uniform tracer. adv = 1 for Euler, CN-RK2, RK3, SIL3 (certificates on the regenerated tables) and within 1e-12 for the 13-digit RK4 table. "
+    "Dry and with-time classes: (zeta, delta)_00 of every level are unchanged after any such history, given that the externally inverted l = 0 matrix is a right inverse (Inv0Ok; via C03). Shallow water (the same Dino.DynamicsSW model as C05): mask / clip closure, (zeta, delta)_00 conserved and, for states of zero mean divergence (preserved), the mean layer thickness phi_00 conserved through any history. "
+    "Dry classes with zero mean divergence: a uniform tracer keeps its value at every level after any history, given linearity, the unit mode and div(uv) = delta. "
+    "PARTIAL (named): moist classes: (zeta, delta)_00 and the uniform tracer hold to rounding only (quadrature-level 1e-19 in the humidity corrections) and are probes; that the real filter equals the lifted form is a differential tie (model trajectories vs step_with_filters), not proved; OpsClosed, Mode0, UniformOk, Inv0Ok are hypotheses validated on the real grids (linear truncations included) on every run.")
+CHECKS['C11']['technique'] = CHECKS['C11']['technique'].replace("the integrator model Dino.Imex and Dino.Filters;", "the shallow-water model Dino.DynamicsSW, the integrator model Dino.Imex and Dino.Filters, with frames on tree-vector records;")
+CHECKS['C12']['text'] = CHECKS['C12']['text'].replace("Negative witness: scaling g like a velocity breaks the identity.", "Negative witness (indexed theorem): scaling g like a velocity breaks the identity; ConstMode is exhibited in Lean on a genuine inverse at eta = 1/10.")
+CHECKS['C14']['text'] = CHECKS['C14']['text'].replace(
+    "and, for scan bodies with at least one output leaf, the accepted calls are characterised exactly (length mismatch ValueError, reshape mismatch TypeError, zero outer length ValueError: matching the real error kinds; empty nested_lengths: IndexError on a one-element input, shown by example);",
+    "and the accepted calls are characterised exactly for bodies with any number of output leaves including none: lengths must match, nested_lengths non-empty, and only when there is an output leaf all non-innermost lengths positive (a body without output leaf returns (carry, None) also for zero outer lengths, as the real code does); the error kinds match the real ones (length mismatch ValueError, reshape mismatch TypeError, zero outer length ValueError; empty nested_lengths is never accepted: ValueError if length is given and != 1, else IndexError when every leaf has exactly one row, else TypeError);")
+CHECKS['C15']['text'] = CHECKS['C15']['text'].replace(
+    "diffusion order >= 1, radius != 0:",
+    "diffusion order >= 1, radius != 0 (diffusion order 0 and cutoff < 0 are accepted by the code without validation and there the real filter multiplies the mean by e^-scale resp. damps l = 0: domain statements measured each run, outside the documented parameter ranges):")
+CHECKS['C16']['text'] = CHECKS['C16']['text'].replace(
+    "and the periodic longitude case via _align_phase_with for point lists in [0, P), increasing, at least two per grid, with source + target cell width <= P/2 (i.e. 1/n_s + 1/n_t <= 1/2 for equispaced grids); '\n             'the precondition stated in the code is insufficient: witness = 3 -> 4 longitudes, where conservation fails on the real code too)",
+    "and the periodic longitude case for point lists strictly increasing, at least two per grid, each spanning less than a period ANYWHERE on the real line (any longitude_offset: % period is shown to rotate the vector and the weight matrix), with largest circular gaps gap_s + gap_t <= P/2 (1/n_s + 1/n_t <= 1/2 for equispaced grids); '\n             'outside this domain the real code is not conservative (3 -> 4 longitudes: known finding lon-conservation-wide-cells; the precondition stated in the code is insufficient); hybrid->sigma under the (unchecked by the code) hypothesis that the hybrid boundaries a/sp+b are sorted; three statements (first conjuncts of verticalWeights_rows / lonWeights_rows, noskip_nan_iff) are definitional unfoldings)")
+CHECKS['C17']['text'] = CHECKS['C17']['text'].replace(
+    "pole rows, where all longitudes coincide, are excluded)", "on grids WITH pole rows the same identity is a test on the real code on every run (it holds in float64 because rounding separates the coincident pole nodes), not a theorem)")
+CHECKS['C18']['text'] = CHECKS['C18']['text'].replace(
+    "and respect products, quotients, integer powers;",
+    "and respect products, quotients, integer powers; the same round trips and unit independence for AFFINE units (degC, degF: conversion factor + offset, as pint does with autoconvert_offset_to_baseunit), with the characterisation that a linearised conversion agrees only for offset 0;")
+CHECKS['C18']['note'] = CHECKS['C18']['note'].replace("Offset units (degC) excluded by construction.", "Compound offset units are excluded (the code raises on them).")
+CHECKS['C19']['text'] = CHECKS['C19']['text'].replace(
+    "split/concat, split_axis are mutually inverse whenever the forward operation succeeds (any number of leaves, any leaf sizes);",
+    "split/concat, split_axis succeed on consistent inputs and are mutually inverse (any number of leaves, any leaf sizes);")
+CHECKS['C19']['note'] = CHECKS['C19']['note'] + ' Known findings also: multi-character separators overlapping a key end; modal_shape == nodal_shape mislabelling.'
+CHECKS['C20']['text'] = CHECKS['C20']['text'].replace(
+    "hypotheses sampled on the real pole-free grids on such states;",
+    "hypotheses exhibited in Lean on a 3-mode clipping transform pair and sampled on the real pole-free grids on such states; cos_lat != 0 is a named side condition of the division by cos_lat^2, validated each run: on equiangular_with_poles the real drag is non-finite;")
+CHECKS['C04']['text'] = CHECKS['C04']['text'].replace(
+    "The product-rule laws are validated on quadratic and cubic grids on every run and are asserted to fail on linear grids (known finding: moist classes on linear grids, aliasing level).",
+    "The laws are required on MASKED arrays only (LawsOn / MaskClosed: the restricted operations satisfy the unrestricted laws, and a grid model where the unrestricted laws provably fail is given); mask closure of every operation is validated exactly on every grid used, with an unmasked negative control. The product-rule laws are validated on quadratic and cubic grids on every run and are asserted to fail on linear grids, where the moist-type dependence (known finding) is pinned on every run to its closed form (R_v - R) dT_ref (defect of the product-rule laws) [+ the cloud residual] to 1e-9, so any other dependence is a violation.")
+
+def _sub(pid, old, new):
+  t = CHECKS[pid]['text']
+  assert old in t, (pid, old[:50])
+  CHECKS[pid]['text'] = t.replace(old, new, 1)
+
+_sub('C09', "Sentinel: every public Grid method",
+     "For the bases and paddings the code builds the modal row padding is proved even (from _round_to_multiple(2M, 2 base x_shards)), so no parity hypothesis remains. cos_lat_d_dlat / sec_lat_d_dlat_cos2 agree with the reference layout on every resolved coefficient and are zero in row 1 and all padding EXCEPT padding column L, which (when the l axis is padded) holds -(L-1) resp. -(L+1) times sqrt((L^2-m^2)/(4L^2-1)) x[m,L-1], because b[:, -1] = 0 zeroes the last PADDED column (value proved; it is the exact l = L coefficient); clip, the Laplacians, the synthesis and any further latitude derivative discard it. "
+     "cos_lat_grad / div_cos_lat / curl_cos_lat commute with iota exactly for clip=True and up to that characterised column for clip=False; k_cross commutes; integrate(pad z) = integrate(z). PARTIAL (named): get_cos_lat_vector, the wind conversions (nodal division by cos_lat), the equation classes, leading batch axes and the single-device mesh are not modelled: their equivalence under the switched implementation is a differential test on the real code. "
+     "Sentinel: every public Grid method")
+_sub('C16', "and the periodic longitude case via _align_phase_with for point lists in [0, P), increasing, at least two per grid, with source + target cell width <= P/2 (i.e. 1/n_s + 1/n_t <= 1/2 for equispaced grids); the precondition stated in the code is insufficient: witness = 3 -> 4 longitudes, where conservation fails on the real code too)",
+     "and the periodic longitude case for point lists strictly increasing, at least two per grid, each spanning less than a period ANYWHERE on the real line (any longitude_offset: % period is shown to rotate the vector and the weight matrix), with largest circular gaps gap_s + gap_t <= P/2 (1/n_s + 1/n_t <= 1/2 for equispaced grids); outside this domain the real code is not conservative (3 -> 4 longitudes: known finding lon-conservation-wide-cells; the precondition stated in the code is insufficient); hybrid->sigma under the hypothesis, unchecked by the code, that the hybrid boundaries a/sp+b are sorted; the first conjuncts of verticalWeights_rows / lonWeights_rows and noskip_nan_iff are definitional unfoldings)")
+_sub('C10', "(induction; that the code's spectral filters are conjugated follows from their being l-multipliers and is additionally tested)",
+     "(induction; for tree filters applying one linear multiplier to every modal leaf conjugation is PROVED from 'the multiplier commutes with rho_M' (spectral_filter_conjugated), which holds for l-multipliers in the list model and is validated on the real exponential / diffusion filters each run)")
+_sub('C05', "which equals the discrete gradient-wind balance residual (its vanishing for solid-body rotation with the analytically balanced surface pressure is a test on the real code, not a theorem).",
+     "which equals the discrete gradient-wind balance residual, so such a flow is steady iff that residual vanishes (its vanishing for solid-body rotation with the analytically balanced surface pressure is a test on the real code and a computation on a toy sphere with longitude, not a theorem).")
+
 NOT_YET = {
 }
 
